@@ -22,6 +22,8 @@
 #define ALN_RUN_IMPORT
 #include "aln_run.h"
 
+#include "kalign_verif.h"
+
 static void recursive_aln(struct msa* msa, struct aln_tasks*t, struct aln_param* ap, uint8_t* active, int c);
 /* static void recursive_aln_openMP(struct msa* msa, struct aln_tasks*t, struct aln_param* ap, uint8_t* active, int c); */
 /* static void recursive_aln_serial(struct msa* msa, struct aln_tasks*t, struct aln_param* ap, uint8_t* active, int c); */
@@ -39,6 +41,7 @@ int create_msa_tree(struct msa* msa, struct aln_param* ap,struct aln_tasks* t)
         uint8_t* active = NULL;
 
         RUN(sort_tasks(t, TASK_ORDER_TREE));
+        KV_HOOK(kv_tree(msa, t));
 
         MMALLOC(active, sizeof(uint8_t)* msa->num_profiles);
 
@@ -100,6 +103,7 @@ void recursive_aln(struct msa* msa, struct aln_tasks*t, struct aln_param* ap, ui
 #ifdef HAVE_OPENMP
 #pragma omp taskwait
 #endif
+        KV_HOOK(kv_merge_begin(msa, t, c));
 
         struct aln_mem* ml = NULL;
 
@@ -269,6 +273,7 @@ int do_align(struct msa* msa,struct aln_tasks* t,struct aln_mem* m, int task_id)
                 msa->sip[c][g] = msa->sip[b][j];
                 g++;
         }
+        KV_HOOK(kv_merge_end(msa, t, m, task_id));
 
         return OK;
 ERROR:
